@@ -9,7 +9,7 @@
 (*     program:  exit 0 | 1 | 64 | 65 | 73 | 74, error reported on stderr  *)
 (* so anything else (Panic, signal, abort, timeout) is a violation.        *)
 (***************************************************************************)
-EXTENDS Json, IOUtils, TLC, Sequences, Integers
+EXTENDS Grammar, Json, IOUtils, TLC
 Rec == ndJsonDeserialize(IOEnv.TRACE)
 VARIABLES l, nbad
 vars == <<l, nbad>>
@@ -25,12 +25,26 @@ Judge(e) ==
      \cup (IF e.how \in ExitCodes /\ e.how # "0" /\ e.stderr_empty THEN {"error_not_reported_on_stderr"} ELSE {})
   ELSE {}
 
+\* Conformance of the parser to the token-level grammar (spec/Grammar.tla): reported as DRIFT only,
+\* because C16 does not promise WHICH outcome a corrupted file gets
+ParseStage(e) == LET I == {i \in 1..Len(e.stages) : e.stages[i].s = "parse"} IN IF I = {} THEN "none" ELSE e.stages[CHOOSE i \in I : TRUE].o
+Drift(e) ==
+  IF e.ev # "Fault" \/ e.kind # "comps" THEN {}
+  ELSE LET pc == ParseClass(e.lines)  o == ParseStage(e) IN
+       IF pc = "Unknown" \/ o \in {"none", "Panic"} THEN {}
+       ELSE IF pc = "ParseError" /\ o # "ParseError" THEN {"grammar_refuses_but_parser_returns_" \o o}
+       ELSE IF pc = "Parsed" /\ o = "ParseError" THEN {"grammar_accepts_but_parser_refuses"}
+       ELSE {}
+
 Init == l = 1 /\ nbad = 0
 Next ==
   /\ l <= Len(Rec)
   /\ LET e == Rec[l]
          bad == Judge(e)
+         dr == Drift(e)
      IN /\ (bad # {} => PrintT(<<"VERDICT", ToJson([prop |-> "C16", case |-> e.case, tag |-> e.tag, clauses |-> bad])>>))
+        /\ (dr # {} => PrintT(<<"DRIFT", ToJson([prop |-> "C16", case |-> e.case, tag |-> e.tag, clauses |-> dr])>>))
+        /\ (e.ev = "Fault" /\ e.kind = "comps" /\ ParseClass(e.lines) # "Unknown" => PrintT(<<"NOTE", ToJson([predicted |-> e.case])>>))
         /\ nbad' = nbad + (IF bad = {} THEN 0 ELSE 1)
   /\ l' = l + 1
 Spec == Init /\ [][Next]_vars
